@@ -1,3 +1,4 @@
+import threading
 from enum import Enum
 from typing import (
     Any,
@@ -34,6 +35,8 @@ from apischema.utils import Lazy
 from apischema.visitor import Result
 
 RecursionKey = Tuple[AnyType, Optional[AnyConversion]]
+
+_recursion_lock = threading.RLock()
 
 
 class RecursiveChecker(ConversionsVisitor[Conv, Any], ObjectVisitor[Any]):
@@ -128,10 +131,13 @@ def is_recursive(
     default_conversion: DefaultConversion,
     checker_cls: Type[RecursiveChecker],
 ) -> bool:
-    cache, rec_key = recursion_cache(checker_cls), (tp, conversion)
-    if rec_key not in cache:
-        checker_cls(default_conversion).visit_with_conv(tp, conversion)
-    return cache[rec_key]
+    # RecursiveChecker instances share (and fill progressively) recursion_cache, so
+    # two analyses must not be interleaved, e.g. on first use of a type by two threads
+    with _recursion_lock:
+        cache, rec_key = recursion_cache(checker_cls), (tp, conversion)
+        if rec_key not in cache:
+            checker_cls(default_conversion).visit_with_conv(tp, conversion)
+        return cache[rec_key]
 
 
 class RecursiveConversionsVisitor(ConversionsVisitor[Conv, Result]):
